@@ -228,7 +228,7 @@ def shapley_coeffs_by_orderings(n: int) -> dict[tuple[int, int], Fraction]:
             coeff[(p, before | 1 << p)] = coeff.get((p, before | 1 << p), 0) + 1
             coeff[(p, before)] = coeff.get((p, before), 0) - 1
             before |= 1 << p
-    return {k: Fraction(c, nf) for k, c in coeff.items() if c}
+    return {k: Fraction(c, nf) for k, c in coeff.items() if c and k[1]}
 
 
 @lru_cache(maxsize=None)
